@@ -91,9 +91,10 @@ Proof. exact finally_keeps_l. Qed.
 Print Assumptions finally_keeps_pending.
 
 (* the implementation's interpreter = the reference interpreter on the exception fragment too:
-   every wf, clean program over every well-formed class table, every fuel *)
+   every wf program over every well-formed class table, every fuel (no defect class is excluded:
+   C02's [clean] holds of every program since /repo 1b0c649) *)
 Theorem impl_refines_ref_exn : forall t, HS.wf t = true ->
-  forall fuel p, wf p = true -> clean p = true -> run_impl5 t fuel p = run_ref5 t fuel p.
+  forall fuel p, wf p = true -> run_impl5 t fuel p = run_ref5 t fuel p.
 Proof. exact impl_refines_ref_exn_l. Qed.
 Print Assumptions impl_refines_ref_exn.
 
